@@ -76,12 +76,22 @@ def record(history, fail=None):
     return [op for op in fs.log if op[0] in ('begin', 'ack', 'fail', 'mkdir', 'create', 'trunc', 'write', 'fsync', 'fsync_dir', 'close')]
 
 
-def images(prefix):
-    """All crash images (dict path -> bytes of visible files) after the trace prefix."""
+def images(prefix, initial=None):
+    """All crash images (dict path -> bytes of visible files) after the trace prefix.  initial: files (path -> bytes)
+    that were durable, with their directories, before the trace."""
     dur_entries = {ROOT}
     pend_entries = []                   # paths (dirs or files) whose directory entry is not durable yet
     is_dir = {ROOT: True}
     files = {}                          # path -> {'durable': bytes, 'pending': [ops]}
+    for path, data in (initial or {}).items():
+        files[path] = {'durable': bytes(data), 'pending': []}
+        is_dir[path] = False
+        p = path
+        while p != ROOT:
+            dur_entries.add(p)
+            p = posixpath.dirname(p)
+            if p != ROOT:
+                is_dir[p] = True
     for op in prefix:
         k = op[0]
         if k == 'mkdir':
@@ -155,8 +165,9 @@ def images(prefix):
     return out
 
 
-def recover(img, dirs):
+def recover(img, dirs, keys=None):
     """Fresh store on the image; read every key -> {key: ('ok', canonical) | ('exc', name)}."""
+    keys = KEYS if keys is None else keys
     fs = MemFS()
     fs.mkdirs(ROOT)
     for d in dirs:
@@ -170,8 +181,8 @@ def recover(img, dirs):
         try:
             st = KeyValueStorage(ROOT)
         except Exception as e:      # noqa: BLE001
-            return {k: ('exc', 'open:' + type(e).__name__) for k in KEYS}
-        for k in KEYS:
+            return {k: ('exc', 'open:' + type(e).__name__) for k in keys}
+        for k in keys:
             try:
                 res[k] = ('ok', cn(st.get(k)))
             except Exception as e:      # noqa: BLE001
@@ -572,6 +583,13 @@ def run(cfg):
     for part in runner.pmap(work2, te, cfg):
         runner.merge_counts(total, part)
     rep.extend_violations(total.get('violations', []))
+    # a get or set of the same key in flight while the set is called (c17_concurrent: every schedule up to the bound)
+    from . import c17_concurrent
+    conc = {}
+    cunits = [(c, cfg.pick(1, 2)) for c in c17_concurrent.configurations(cfg.quick)]
+    for part in runner.pmap(c17_concurrent.work, cunits, cfg, chunk=1):
+        runner.merge_counts(conc, part)
+    rep.extend_violations(conc.get('violations', []))
     conf_hist = [('a', 0), ('d/x', 2), ('a', 1), ('d/x', 0)]
     ok, detail = strace_conformance(conf_hist)
     if ok is False:
@@ -590,7 +608,15 @@ def run(cfg):
         rep.extend_violations(kill.get('violations', []))
     sample_trace = [_opname(o) for o in record([('d/x', 0)])]
     rep.coverage = {
-        'evaluations': total.get('recoveries', 0) + kill['kill_runs'],
+        'evaluations': total.get('recoveries', 0) + kill['kill_runs'] + conc.get('conc_recoveries', 0),
+        'concurrent_part': {'configurations': [c['name'] for c, _ in cunits], 'preemption_bound_completed': cfg.pick(1, 2),
+                            'schedules_executed': conc.get('conc_executions', 0),
+                            'scheduling_points': conc.get('conc_transitions', 0),
+                            'executions_by_preemptions': conc.get('conc_by_preemptions', {}),
+                            'crash_images_recovered': conc.get('conc_recoveries', 0),
+                            'distinct_outcomes': len(conc.get('conc_outcomes', ())),
+                            'oracle': 'every call returns; history linearizable with every returned set taking effect; every '
+                                      'crash image of the complete trace reads a final value of those linearizations'},
         'distinct_nontrivial': len(total.get('nontrivial', ())),
         'rule': 'every history of <= %d sets over 3 keys (flat, nested) x 3 values (two of 20 bytes, one of 20000 bytes); '
                 'for every prefix of the recorded kernel-level trace every crash image allowed by the persistence model '
@@ -615,6 +641,8 @@ def run(cfg):
         'resulting operation sequence is compared with strace of the same history on a real directory',
         'the store root directory exists durably before the history',
         'kill-at-boundary runs keep the page cache: they only show that no other key is harmed and the store opens',
+        'concurrent part: thread switches only at scheduling points (lock, submit, task start, future wait, file-system '
+        'calls, unlocked accesses to the shared fields of the cache), as in C18',
     ]
     return rep
 
@@ -624,6 +652,9 @@ def replay(cfg, path):
     with open(path) as f:
         r = json.load(f)
     case = r['case']
+    if case.get('kind') == 'concurrent':
+        from . import c17_concurrent
+        return c17_concurrent.replay(case)
     hist = [tuple(h) for h in case['history']]
     if 'kill_at' in case:
         print(kill_runs(hist))
